@@ -94,7 +94,9 @@ func runCheck(c *Checker, f func(*Checker), dir string) (code int) {
 		}
 	}()
 	archs := []string{"amd64"}
-	if c.Tier == "thorough" {
+	// properties whose verdict depends on the width of int/uint/uintptr are checked on a 32-bit
+	// configuration in the quick tier as well; the thorough tier adds it for every property
+	if c.Tier == "thorough" || thoroughArch[c.Prop] {
 		archs = append(archs, "386")
 	}
 	for _, a := range archs {
